@@ -146,7 +146,7 @@ def checker_override():
             desc = getattr(signed, 'dm_desc', None)
             if desc is not None and PROVED.get(desc.get('lemma_key')) and getattr(signed, 'canon_stamp', None) == stubs.struct_stamp(signed):
                 sigs = md['signatures']
-                if isinstance(sigs, dict) and not sigs:
+                if (isinstance(sigs, dict) and not sigs) or (isinstance(sigs, SDict) and not sigs.slots):
                     sig_ok = z3.BoolVal(True)
                 elif sigs is desc.get('envelope_sigs') and desc.get('sig_wf') is not None:
                     sig_ok = zb(desc['sig_wf'])
